@@ -202,15 +202,14 @@ noncomputable def dtcNoise (m : Nat) (sigma : Sigma ℝ m) (jitter : ℝ) (ycf :
     | .ok F => if F.r = m then .ok (noiseOf m F jitter) else .error .internal
 
 theorem lmLLB_spec {AAt : Mat ℝ m m} {sigma : Sigma ℝ m} {jitter : ℝ} {ycf : Option (AnyMat ℝ)}
-    {yIsMean : Bool} {LLB : Mat ℝ m m} {y' : Option (AnyMat ℝ)}
-    (h : lmLLB AAt sigma jitter ycf yIsMean = .ok (LLB, y')) :
+    {yIsMean : Bool} {LLB : Mat ℝ m m}
+    (h : lmLLB AAt sigma jitter ycf yIsMean = .ok LLB) :
     ∃ N, dtcNoise m sigma jitter ycf yIsMean = .ok N ∧ toM LLB = toM AAt + N ∧ N.IsSymm := by
   unfold lmLLB at h
   unfold dtcNoise
   by_cases hm : yIsMean
   · simp only [hm, if_true] at h ⊢
-    have := Except.ok.inj h
-    have hL : LLB = stabilize AAt jitter := (Prod.mk.inj this).1.symm
+    have hL : LLB = stabilize AAt jitter := (Except.ok.inj h).symm
     subst hL
     exact ⟨_, rfl, toM_stabilize _ _, (Matrix.isSymm_one).smul jitter⟩
   · simp only [hm, if_false, Bool.false_eq_true] at h ⊢
@@ -221,11 +220,7 @@ theorem lmLLB_spec {AAt : Mat ℝ m m} {sigma : Sigma ℝ m} {jitter : ℝ} {ycf
       simp only
       split at h
       · cases h
-      · rename_i K' hK'
-        have := Except.ok.inj h
-        have hL : LLB = K' := (Prod.mk.inj this).1.symm
-        subst hL
-        obtain ⟨hr, hK⟩ := addVariance_some _ F jitter hK'
+      · obtain ⟨hr, hK⟩ := addVariance_some _ F jitter h
         simp only [hr, if_true]
         exact ⟨_, rfl, hK, noiseOf_symm m F jitter⟩
 
@@ -257,7 +252,7 @@ theorem dtc_weights_solve {cov : Cov ℝ} {x : Mat ℝ n d} {xu : Mat ℝ m d} {
     simp only at h
     split at h
     · cases h
-    · rename_i LLB y' hLLB
+    · rename_i LLB hLLB
       obtain ⟨N, hN, hLLBeq, hNsym⟩ := lmLLB_spec hLLB
       split at h
       · cases h
